@@ -31,6 +31,7 @@ def alphabet(rng, a, mfs):
 
 class C05(PropBase):
     id = 'C05'
+    address_change = 0.15
     rx_only_gaps = 0.1
     partial_passes = 0.25
     rx_only_passes = 0.4
